@@ -19,7 +19,7 @@ STAGES = ["none", "bad_owner_signature", "expired", "missing_link", "unauthorise
           "failing_step_rule_match_from_undefined", "failing_last_step_rule", "sublayout_expired", "sublayout_missing_link",
           "sublayout_rule", "surplus_sublayout_missing_link", "surplus_sublayout_expired"]
 OUTCOMES = ["exit0", "exit1", "exit2", "exit127", "exit255", "killed", "not_found", "creates", "modifies", "deletes"]
-RULESETS = ["none", "satisfied", "violated_materials", "violated_products"]
+RULESETS = ["none", "satisfied", "violated_materials", "violated_products", "products_only_create_preexisting"]
 FUNC = ["ed4", "ed5", "ed6", "edp2"]
 
 
@@ -37,6 +37,10 @@ def rules_of(rs):
         return [["REQUIRE", "pre.txt"], ["ALLOW", "*"]], [["REQUIRE", "sentinel.txt"], ["ALLOW", "*"], ["DISALLOW", "*"]]
     if rs == "violated_materials":
         return [["DISALLOW", "pre.txt"], ["ALLOW", "*"]], [["ALLOW", "*"]]
+    if rs == "products_only_create_preexisting":
+        # no material rules at all; pre.txt exists before the command runs, so it is not *created* by the inspection:
+        # CREATE does not consume it and the DISALLOW after it applies - unless the command deletes the file
+        return [], [["CREATE", "*.txt"], ["DISALLOW", "pre.txt"], ["ALLOW", "*"]]
     return [["ALLOW", "*"]], [["DISALLOW", "sentinel.txt"], ["ALLOW", "*"]]
 
 
@@ -149,7 +153,8 @@ def build_cell(W, rng, stage, outcome, rs, ninsp, level, keyset=FUNC, random_ext
             files[f"sub.{W.pfx(kd)}.link"] = scen.dumps(lw)
             top = w("outer")
         stage_fails = stage != "none"
-        insp_ok = outcome in ("exit0", "creates", "modifies", "deletes") and rs in ("none", "satisfied")
+        insp_ok = outcome in ("exit0", "creates", "modifies", "deletes") and (
+            rs in ("none", "satisfied") or (rs == "products_only_create_preexisting" and outcome == "deletes"))
         meta = {"stage": stage, "outcome": outcome, "ruleset": rs, "ninsp": ninsp, "level": level, "tags": tags,
                 "expect": "accept" if (not stage_fails and insp_ok) else "reject", "stage_fails": stage_fails}
         return scen.verify_case(top, [[W.kid("ed0"), W.pub("ed0")]], files, work_files={"pre.txt": "original\n"}, meta=meta)
@@ -255,7 +260,7 @@ def main(ctx):
                           "levels": ["top", "delegated"], "cells": ncells}
     return common.finish(
         PROP, ctx.tier, ctx.seed, res, t0=ctx.t0, level="fault_enumeration",
-        rule="complete grid failing stage (17) x inspection outcome (10) x inspection rule set (4) x 1-2 inspections x "
+        rule="complete grid failing stage (17) x inspection outcome (10) x inspection rule set (5) x 1-2 inspections x "
              "{top-level, delegated layout}; every cell is one real in_toto_verify call in a fresh working directory, "
              "observed through the inspection command's own sentinel/snapshot files; every cell is non-trivial and "
              "distinct; thorough repeats the grid with other key types",
